@@ -31,6 +31,24 @@ Inductive query :=
 Record case := C { k_cls : string; k_a : shape; k_q : query; k_impl : verdict; k_torch : verdict }.
 
 Definition tview := restrict_tensor table.
+
+(* the verdicts of the table, computed ONCE (when this file is compiled against the regenerated gen/Guards.v) for every
+   class x entry point, so that the case shards only look them up.  memo_* e c = row_* ... c e by construction. *)
+Definition all_entries : list entry :=
+  [E_matmul; E_rmatmul; E_solve; E_inv_quad; E_inv_quad_logdet; E_add; E_sub; E_mul; E_add_diagonal; E_expand; E_getitem;
+   E_logdet; E_diagonalization; E_root_decomposition; E_root_inv_decomposition].
+Definition verdict_memo (f : string -> entry -> bool) : list (string * entry * bool) :=
+  flat_map (fun r => if entry_eqb (r_entry r) E_matmul
+                     then map (fun e => (r_cls r, e, f (r_cls r) e)) all_entries else []) table.
+Definition memo_exact_tensor := Eval vm_compute in verdict_memo (row_exact FUEL tview).
+Definition memo_exact_any := Eval vm_compute in verdict_memo (row_exact FUEL table).
+Definition memo_square := Eval vm_compute in verdict_memo (row_square FUEL table).
+Definition memo_def := Eval vm_compute in map (fun r => (r_cls r, r_entry r, r_def r)) table.
+Definition lookup_memo (m : list (string * entry * bool)) (c : string) (e : entry) : bool :=
+  match find (fun x => String.eqb (fst (fst x)) c && entry_eqb (snd (fst x)) e) m with Some x => snd x | None => false end.
+Definition exact_tensor_of := lookup_memo memo_exact_tensor.
+Definition exact_any_of := lookup_memo memo_exact_any.
+Definition square_of := lookup_memo memo_square.
 Definition of_spec (o : option shape) : verdict := match o with Some s => VOk s | None => VRaise end.
 Definition of_res (r : res shape) : verdict := match r with Ok s => VOk s | Raise => VRaise end.
 Definition is_square_b (a : shape) : bool := match lib_is_square a with Ok true => true | _ => false end.
@@ -102,7 +120,8 @@ Definition spec_vs_torch (c : case) : bool :=
 (* ---------------------------------------------------------------- MODEL verdict *)
 
 Definition def_of (c : string) (e : entry) : string :=
-  match find_row table c e with Some r => r_def r | None => ""%string end.
+  match find (fun x => String.eqb (fst (fst x)) c && entry_eqb (snd (fst x)) e) memo_def with
+  | Some x => snd x | None => ""%string end.
 Definition check_size_of (c : string) : bool :=
   match find (fun x => String.eqb (fst (fst (fst x))) c) ctor_table with Some x => snd x | None => true end.
 
@@ -164,7 +183,7 @@ Close Scope string_scope.
 
 (* A @ R: whatever passes the exact guard for EVERY operand kind (the unrestricted table) *)
 Definition model_pair_matmul (c : string) (a : shape) (b : shape) : option verdict :=
-  if row_exact FUEL table c E_matmul then Some (of_spec (torch_matmul_shape a b)) else None.
+  if exact_any_of c E_matmul then Some (of_spec (torch_matmul_shape a b)) else None.
 
 Definition exact_entry (e : entry) : bool :=
   match e with E_matmul | E_rmatmul | E_inv_quad | E_mul | E_add | E_sub => true | _ => false end.
@@ -172,8 +191,8 @@ Definition exact_entry (e : entry) : bool :=
 Definition model_verdict (c : string) (a : shape) (q : query) : option verdict :=
   match q with
   | QEntry e b =>
-      if exact_entry e && row_exact FUEL tview c e then Some (of_spec (spec_shape e a b))
-      else if req_square e && row_square FUEL table c e && negb (is_square_b a) then Some VRaise
+      if exact_entry e && exact_tensor_of c e then Some (of_spec (spec_shape e a b))
+      else if req_square e && square_of c e && negb (is_square_b a) then Some VRaise
       else
         match e with
         | E_matmul => option_map of_res (pinned_matmul (def_of c E_matmul) a b)
@@ -199,7 +218,7 @@ Definition model_verdict (c : string) (a : shape) (q : query) : option verdict :
             if String.eqb (def_of c E_add) "ZeroLinearOperator" then Some (of_res (pinned_zero_add a b)) else None
         | _ => None
         end
-  | QSquare e => if req_square e && row_square FUEL table c e then Some VRaise else None
+  | QSquare e => if req_square e && square_of c e then Some VRaise else None
   | QAddDiag d =>
       if String.eqb (def_of c E_add_diagonal) "LinearOperator" then
         Some (match lib_add_diagonal_check a d with Ok _ => VOkAny | Raise => VRaise end)
